@@ -13,6 +13,7 @@
   --------------------------------------  ------------------------------------  -----------------  -----------
   _zero_padded (hostlist.c)               Hostlist.zeroPadded                   zero_padded        C01 C14 C16
   _width_equiv (hostlist.c)               Hostlist.widthEquiv                   width_equiv        C01 C14 C16
+  host_prefix_end (hostlist.c)            Hostlist.hostPrefixLen                host_prefix_end    C01 C16
   hostrange_count (hostlist.c)            Hostlist.HRange.count                 hostrange_count    C01 C14 C16
   hostrange_empty (hostlist.c)            Hostlist.HRange.empty                 hostrange_empty    C16
   hostrange_prefix_cmp (hostlist.c)       Hostlist.prefixCmp                    hostrange_prefix_cmp  C01 C14 C16
@@ -29,7 +30,7 @@
   find_rcmd_module (rcmd.c)               membership in Cfg.loaded              find_rcmd_module   C09
 
   Translated but NOT yet bridged (the generated definitions exist and are re-generated; no theorem):
-  host_prefix_end (hostlist.c) vs Hostlist.hostPrefixLen; cbuf_find_unread_line (cbuf.c) vs Cbuf.findUnreadLine.
+  cbuf_find_unread_line (cbuf.c) vs Cbuf.findUnreadLine.
 
   Not proved here: anything about functions outside the translator's subset (tools/c2lean.md lists the
   ones tried); that clang's AST, the translator and the libc models of C2Lean/Prelude.lean are right
@@ -58,6 +59,11 @@ theorem width_equiv (fuel n wn m wm : Nat) (hf : 20 ≤ fuel) (hn : n < U64) (hm
       some (if (widthEquiv n wn m wm).1 then 1 else 0,
             ((widthEquiv n wn m wm).2.1 : Int), ((widthEquiv n wn m wm).2.2 : Int)) :=
   width_equiv_bridge fuel n wn m wm hf hn hm hwn hwm
+
+theorem host_prefix_end (fuel : Nat) (s : Str) (hb : ∀ c ∈ s, c.toNat < 256) (hl : s.length < 2147483647)
+    (hf : s.length < fuel) :
+    Gen.Fn.Hostlist.host_prefix_end fuel s = some ((hostPrefixLen s : Int) - 1) :=
+  host_prefix_end_bridge fuel s hb hl hf
 
 theorem hostrange_count (r : HRange) (h : InC r) :
     Gen.Fn.Hostlist.hostrange_count (toC r) = some r.count :=
